@@ -236,7 +236,18 @@ impl Transaction {
         latest_block_id: u64,
         genesis_period: u64,
     ) -> Result<Transaction, Error> {
-        let total_payment: Currency = payments.iter().sum();
+        // checked sums: a request that does not fit into a Currency is refused
+        // (unchecked it wraps in release builds and panics in debug builds)
+        let total_payment: Currency = match payments
+            .iter()
+            .try_fold(0 as Currency, |total, payment| total.checked_add(*payment))
+        {
+            Some(total) => total,
+            None => {
+                error!("the payments of the transaction do not sum to a valid amount");
+                return Err(Error::from(ErrorKind::InvalidInput));
+            }
+        };
         trace!(
             "generating transaction : payments = {:?}, fee = {:?}",
             total_payment,
@@ -254,7 +265,13 @@ impl Transaction {
             with_fee = 0;
         }
 
-        let total_requested = total_payment + with_fee;
+        let total_requested = match total_payment.checked_add(with_fee) {
+            Some(total) => total,
+            None => {
+                error!("payments and fee of the transaction do not sum to a valid amount");
+                return Err(Error::from(ErrorKind::InvalidInput));
+            }
+        };
         trace!(
             "in generate transaction. available: {} and payment: {} and fee: {}",
             available_balance,
